@@ -250,6 +250,9 @@ def parallel(run, fn, chunks, jobs=None, chunk_timeout=None):
                 done.append(idx)
         for idx in done:
             running.pop(idx)
+        if done and os.environ.get('VERIF_PROGRESS'):
+            sys.stderr.write(f'[{run.prop}] chunks left={len(pending)} running={len(running)} of {len(chunks)} '
+                             f'inconclusive={len(run.inconclusive)} violations={len(run.violations)}\n')
         if not done:
             time.sleep(0.05)
 
